@@ -277,8 +277,10 @@ async fn run(transport_split: bool) {
     }
     let received_by_client: Rc<RefCell<Vec<Msg>>> = Rc::new(RefCell::new(Vec::new()));
     let mut rcv_peer_handle = 0u32;
+    let poke = Rc::new(tokio::sync::Notify::new());
     if with_receiver {
         rcv_peer_handle = 77;
+        let rcv_credit = pick(&[50u32, 3, 10]);
         let dc0 = pick(&[0u32, 5, u32::MAX - 2]);
         st.rcv_initial_dc = dc0;
         let att = sim::in_group(
@@ -286,7 +288,7 @@ async fn run(transport_split: bool) {
             Receiver::builder()
                 .name("rcv")
                 .source("q")
-                .credit_mode(CreditMode::Auto(pick(&[50u32, 3, 10])))
+                .credit_mode(CreditMode::Auto(rcv_credit))
                 .attach(&mut session),
         );
         let st_ref = &mut st;
@@ -304,10 +306,22 @@ async fn run(transport_split: bool) {
         match sim::op("attach receiver against scripted peer", world::join2(att, peer_att)).await {
             Some((Ok(mut r), Some(()))) => {
                 let got = received_by_client.clone();
+                let poke2 = poke.clone();
                 sim::spawn("client-receiver", async move {
-                    while let Ok(d) = r.recv::<Body<Value>>().await {
-                        let _ = r.accept(&d).await;
-                        got.borrow_mut().push(d.into_message());
+                    loop {
+                        tokio::select! {
+                            biased;
+                            _ = poke2.notified() => {
+                                let _ = r.set_credit(rcv_credit).await;
+                            }
+                            res = r.recv::<Body<Value>>() => match res {
+                                Ok(d) => {
+                                    let _ = r.accept(&d).await;
+                                    got.borrow_mut().push(d.into_message());
+                                }
+                                Err(_) => break,
+                            },
+                        }
                     }
                 });
             }
@@ -428,14 +442,11 @@ async fn run(transport_split: bool) {
                 drop(m);
                 // at quiescence the client's latest report of next-incoming-id must be exact
                 if with_receiver && st.rcv_sent > 0 {
-                    // ask the client's receiver link for its state (echo is a link-level request)
-                    let mut f = st.ps.flow_args();
-                    f.handle = Some(rcv_peer_handle);
-                    f.delivery_count = Some(st.rcv_initial_dc.wrapping_add(st.rcv_sent));
-                    f.link_credit = Some(0);
-                    f.echo = Some(true);
-                    peer.send(st.ps.channel, &peer::flow(&f)).await;
+                    // have the application make the client's receiver link write a flow of its own
+                    // (a flow from the peer would restate next-outgoing-id and reset the counter under test)
                     let before = st.client_flows.len();
+                    poke.notify_one();
+                    sim::sleep_ms(1).await;
                     peer::settle(&mut peer, &net, |f| absorb_frame(&mut st, f)).await;
                     if let Some(reply) = st.client_flows[before..].last() {
                         let nii = reply.field(0).as_u32();
@@ -567,4 +578,260 @@ async fn run(transport_split: bool) {
     };
     let _ = world::join2(td, peer::serve_teardown(&mut peer, 30_000)).await;
     let _ = Item::Header([0; 8]);
+}
+
+// ------------------------------------------------------------------------------------------
+// Listener side: a real listener session (receiving) against a scripted sending peer. The
+// receive-side counter is the subject: next-incoming-id advances once per transfer frame
+// received, whatever the session then does with the frame - routed to a link, or (listener
+// only) dropped because its handle is not attached.
+
+struct LState {
+    ps: PeerSession,
+    ep_handle: u32,
+    flows: Vec<V>,
+    credit_seen: bool,
+}
+
+fn l_absorb(st: &mut LState, f: &wire::WFrame) {
+    if let (wire::FLOW, Some(p)) = (f.code, &f.perf) {
+        if p.field(4).as_u32() == Some(st.ep_handle) {
+            st.credit_seen = true;
+        }
+        st.flows.push(p.clone());
+    }
+}
+
+/// At quiescence: have the application make the listener's receiving link send a flow of its
+/// own (set_credit) and compare the session's next-incoming-id in it with what the peer stated
+/// plus the transfer frames it has written since. (A flow from the peer would not do as the
+/// trigger: it restates the peer's next-outgoing-id and so resets the counter under test.)
+async fn exact_nii_check(peer: &mut Peer, st: &mut LState, net: &crate::net::NetHandle, poke: &Rc<tokio::sync::Notify>, strays: u32) -> bool {
+    if !peer::settle(peer, net, |f| l_absorb(st, f)).await {
+        sim::harness_error("no-quiescence", "the connection did not become quiescent within the deadline".into());
+        return false;
+    }
+    let before = st.flows.len();
+    poke.notify_one();
+    sim::sleep_ms(1).await;
+    peer::settle(peer, net, |f| l_absorb(st, f)).await;
+    match st.flows[before..].last() {
+        Some(reply) => {
+            let nii = reply.field(0).as_u32();
+            if nii != Some(st.ps.next_outgoing_id) {
+                sim::violation(
+                    "reported-next-incoming-id",
+                    format!(
+                        "at quiescence the listener reports next-incoming-id {:?}; the peer's next-outgoing-id is {} ({} of its transfer frames were for a handle that is not attached)",
+                        nii, st.ps.next_outgoing_id, strays
+                    ),
+                );
+                return false;
+            }
+            sim::probe("exact-next-incoming-id-checked");
+            true
+        }
+        None => {
+            sim::harness_error("no-flow-after-set-credit", "the application called set_credit at quiescence and no flow was written".into());
+            false
+        }
+    }
+}
+
+pub async fn run_listener() {
+    use fe2o3_amqp::acceptor::{LinkAcceptor, LinkEndpoint, SessionAcceptor};
+    let peer_initial: u32 = match choice(4) {
+        0 => 0,
+        1 => u32::MAX - choice(20),
+        _ => choice(1000),
+    };
+    let lcfg = EndpointCfg::default_cfg();
+    let (nab, nba, nd) = world::draw_net(true);
+    let credit = pick(&[50u32, 200, 30]);
+    let steps = 3 + choice(8);
+    let strays_first = choice(3);
+    let dc0 = pick(&[0u32, 9, u32::MAX - 1]);
+    sim::set_config(format!("side=listener peer-initial={} credit=Auto({}) steps={} strays-before-attach={} initial-dc={} {}", peer_initial, credit, steps, strays_first, dc0, nd));
+    sim::mark_nontrivial();
+    let models = Models { window: true, sess: true, ..Models::none() };
+    let pvl = match peer::peer_vs_listener(&lcfg, peer::open("peer", Some(65536), Some(255), None), nab, nba, models).await {
+        Some(x) => x,
+        None => return,
+    };
+    let peer::ListenerVsPeer { mut listener, mut peer, net, .. } = pvl;
+    let ps = PeerSession::new(pick(&[0u16, 4]), peer_initial, 5000, 5000);
+    let got: Rc<RefCell<Vec<Msg>>> = Rc::new(RefCell::new(Vec::new()));
+    let got2 = got.clone();
+    let ready: world::Slot<Result<(), String>> = world::Slot::new();
+    let ready2 = ready.clone();
+    let poke = Rc::new(tokio::sync::Notify::new());
+    let poke2 = poke.clone();
+    sim::spawn(
+        "listener-app",
+        sim::in_group(2, async move {
+            let acc = SessionAcceptor::new();
+            let mut sess = match acc.accept(&mut listener).await {
+                Ok(s) => s,
+                Err(e) => {
+                    ready2.put(Err(format!("session accept: {:?}", e)));
+                    return;
+                }
+            };
+            let la = LinkAcceptor::new();
+            match la.accept(&mut sess).await {
+                Ok(LinkEndpoint::Receiver(mut r)) => {
+                    r.set_credit_mode(CreditMode::Auto(credit));
+                    let _ = r.set_credit(credit).await;
+                    ready2.put(Ok(()));
+                    sim::spawn("listener-receiver", async move {
+                        loop {
+                            tokio::select! {
+                                biased;
+                                _ = poke2.notified() => {
+                                    let _ = r.set_credit(credit).await;
+                                }
+                                res = r.recv::<Body<Value>>() => match res {
+                                    Ok(d) => {
+                                        let _ = r.accept(&d).await;
+                                        got2.borrow_mut().push(d.into_message());
+                                    }
+                                    Err(_) => break,
+                                },
+                            }
+                        }
+                        std::future::pending::<()>().await;
+                        drop(r);
+                    });
+                }
+                Ok(_) => ready2.put(Err("expected a receiver endpoint".into())),
+                Err(e) => ready2.put(Err(format!("link accept: {:?}", e))),
+            }
+            let _ = sess.on_end().await;
+            let _ = listener.on_close().await;
+        }),
+    );
+    let mut st = LState { ps, ep_handle: 0, flows: Vec::new(), credit_seen: false };
+    peer.send(st.ps.channel, &peer::begin(None, st.ps.next_outgoing_id, st.ps.incoming_window, st.ps.outgoing_window)).await;
+    let b = match peer.expect(wire::BEGIN).await {
+        Some(b) => b,
+        None => {
+            sim::violation("begin-failed", "listener did not answer begin".into());
+            return;
+        }
+    };
+    st.ps.on_remote_begin(b.perf.as_ref().unwrap(), b.channel);
+    let peer_handle = pick(&[0u32, 3]);
+    let stray_handle = peer_handle + 1 + choice(40);
+    let mut strays = 0u32;
+    let mut uid = 95_000u64;
+    // a transfer for a handle that is not attached: the listener drops it and carries on (it
+    // may be for a link the application has not accepted yet); it is a frame received all the same
+    async fn stray(peer: &mut Peer, st: &mut LState, handle: u32, uid: &mut u64, strays: &mut u32) {
+        *uid += 1;
+        let m = msgs::gen_message(*uid, 60, 1);
+        let t = TransferArgs {
+            handle,
+            delivery_id: Some(st.ps.next_delivery_id),
+            delivery_tag: Some(uid.to_be_bytes().to_vec()),
+            message_format: Some(0),
+            settled: Some(true),
+            ..Default::default()
+        };
+        peer.send_with_payload(st.ps.channel, &peer::transfer(&t), &msgs::encode(&m)).await;
+        st.ps.next_delivery_id = st.ps.next_delivery_id.wrapping_add(1);
+        st.ps.on_transfer_sent();
+        *strays += 1;
+        sim::fault("transfer-for-unattached-handle");
+    }
+    for _ in 0..strays_first {
+        stray(&mut peer, &mut st, stray_handle, &mut uid, &mut strays).await;
+    }
+    let mut args = AttachArgs::sender("lsnd", peer_handle);
+    args.initial_delivery_count = Some(dc0);
+    args.snd_settle_mode = Some(1);
+    peer.send(st.ps.channel, &peer::attach(&args)).await;
+    let a = match peer.expect(wire::ATTACH).await {
+        Some(a) => a,
+        None => {
+            sim::violation("attach-failed", format!("listener did not answer attach (after {} transfers for an unattached handle): eof={} err={:?}", strays, peer.eof, peer.read_error));
+            return;
+        }
+    };
+    st.ep_handle = a.perf.as_ref().unwrap().field(1).as_u32().unwrap_or(0);
+    for f in std::mem::take(&mut peer.skipped) {
+        l_absorb(&mut st, &f);
+    }
+    match sim::op("listener link accept", ready.take()).await {
+        Some(Ok(())) => {}
+        Some(Err(e)) => {
+            sim::violation("attach-failed", e);
+            return;
+        }
+        None => return,
+    }
+    if !peer::settle(&mut peer, &net, |f| l_absorb(&mut st, f)).await {
+        return;
+    }
+    if !st.credit_seen {
+        sim::violation("no-credit", "the listener's receiving link issued no credit".into());
+        return;
+    }
+    let mut sent: Vec<Msg> = Vec::new();
+    for _ in 0..steps {
+        for f in peer.drain_for(pick(&[0u64, 1, 20])).await {
+            l_absorb(&mut st, &f);
+        }
+        if sim::has_violation() {
+            return;
+        }
+        match choice(5) {
+            0 | 1 => {
+                if sent.len() >= 25 {
+                    continue;
+                }
+                // one delivery in 1..3 frames, well within the credit
+                uid += 1;
+                let m = msgs::gen_message(uid, 200, 2);
+                let payload = msgs::encode(&m);
+                let nframes = (1 + choice(3) as usize).min(payload.len());
+                let id = st.ps.next_delivery_id;
+                st.ps.next_delivery_id = id.wrapping_add(1);
+                let chunk = (payload.len() + nframes - 1) / nframes;
+                let pieces: Vec<&[u8]> = payload.chunks(chunk.max(1)).collect();
+                let n = pieces.len();
+                for (i, piece) in pieces.iter().enumerate() {
+                    let t = TransferArgs {
+                        handle: peer_handle,
+                        delivery_id: if i == 0 { Some(id) } else { None },
+                        delivery_tag: if i == 0 { Some(uid.to_be_bytes().to_vec()) } else { None },
+                        message_format: if i == 0 { Some(0) } else { None },
+                        settled: if i == 0 { Some(true) } else { None },
+                        more: if i + 1 == n { None } else { Some(true) },
+                        ..Default::default()
+                    };
+                    peer.send_with_payload(st.ps.channel, &peer::transfer(&t), piece).await;
+                    st.ps.on_transfer_sent();
+                }
+                sent.push(m);
+            }
+            2 => stray(&mut peer, &mut st, stray_handle, &mut uid, &mut strays).await,
+            _ => {
+                if !exact_nii_check(&mut peer, &mut st, &net, &poke, strays).await {
+                    return;
+                }
+            }
+        }
+    }
+    if !exact_nii_check(&mut peer, &mut st, &net, &poke, strays).await {
+        return;
+    }
+    {
+        let g = got.borrow();
+        if g.len() != sent.len() || g.iter().zip(sent.iter()).any(|(a, b)| !msgs::same_message(a, b)) {
+            sim::violation("incoming-transfer-lost", format!("the peer sent {} messages to the listener's receiver, which returned {}", sent.len(), g.len()));
+            return;
+        }
+    }
+    peer.send(0, &peer::close(None)).await;
+    let _ = peer.drain_for(2000).await;
 }
